@@ -25,7 +25,11 @@ fn pp_cache() -> &'static Mutex<HashMap<String, Arc<dyn Any + Send + Sync>>> {
 
 /// `setup` with a deterministic seed, cached per (scheme, max_degree, num_vars).
 pub fn cached_setup<A: Adapter>(max_degree: i64, num_vars: i64) -> Out<A::UP> {
-    let key = format!("{}:{}:{}:{}", A::NAME, max_degree, num_vars, verif_seed());
+    cached_setup_wf::<A>(max_degree, num_vars, true)
+}
+
+pub fn cached_setup_wf<A: Adapter>(max_degree: i64, num_vars: i64, wf: bool) -> Out<A::UP> {
+    let key = format!("{}:{}:{}:{}:{}", A::NAME, max_degree, num_vars, verif_seed(), wf);
     if let Some(v) = pp_cache().lock().unwrap().get(&key) {
         if let Some(o) = v.downcast_ref::<Out<A::UP>>() {
             return o.clone();
@@ -40,7 +44,13 @@ pub fn cached_setup<A: Adapter>(max_degree: i64, num_vars: i64) -> Out<A::UP> {
         Some(num_vars as usize)
     };
     let mut rng = rng_for(&format!("setup:{}", A::NAME), (max_degree * 1000 + num_vars) as u64);
-    let out = guarded(|| PCx::<A>::setup(max_degree as usize, nv, &mut rng));
+    let mut out = guarded(|| PCx::<A>::setup(max_degree as usize, nv, &mut rng));
+    if !wf && out.is_ok() {
+        // same admission as the default setup (evaluated above), other parameters
+        if let Out::Ok(Some(p)) = guarded_plain(|| A::setup_without_wf(max_degree as usize, nv, &mut rng)) {
+            out = Out::Ok(p);
+        }
+    }
     pp_cache()
         .lock()
         .unwrap()
@@ -647,6 +657,29 @@ pub fn apply_adv<A: Adapter>(
             }
             _ => false,
         },
+        // ---- two errors weighted with the opening challenges of their positions (squeeze indices k, d) ----
+        "value_weighted" => match st {
+            Stmt::Batch { evals, .. } => {
+                use ark_crypto_primitives::sponge::CryptographicSponge;
+                let mut sp = sp_v.fork_log();
+                let n = adv.k.max(adv.d).max(1) as usize;
+                let ch: Vec<A::F> = (0..n)
+                    .map(|_| sp.squeeze_field_elements_with_sizes::<A::F>(&[ark_poly_commit::CHALLENGE_SIZE])[0])
+                    .collect();
+                let (xa, xb) = (ch[adv.k as usize - 1], ch[adv.d as usize - 1]);
+                let e: A::F = delta(beh, "plus");
+                let ka = (plabel(adv.l), A::make_point(adv.pt, beh));
+                let kb = (plabel(adv.l2), A::make_point(adv.pt2, beh));
+                if xb.is_zero() || !evals.contains_key(&ka) || !evals.contains_key(&kb) {
+                    false
+                } else {
+                    *evals.get_mut(&ka).unwrap() += e;
+                    *evals.get_mut(&kb).unwrap() -= e * xa * xb.inverse().unwrap();
+                    true
+                }
+            }
+            _ => false,
+        },
         // ---- statement: claimed value ----
         "value" => {
             let d: A::F = delta(beh, &adv.pat);
@@ -1158,7 +1191,7 @@ pub fn run_beh<A: Adapter>(beh: &Beh) -> Obs {
     let mut obs = Obs::default();
     let bseed = subseed("beh", hash_str(&beh.id));
     // setup
-    let pp = cached_setup::<A>(beh.max_degree, beh.num_vars);
+    let pp = cached_setup_wf::<A>(beh.max_degree, beh.num_vars, beh.wf);
     obs.setup = pp.class().into();
     let pp = match pp {
         Out::Ok(p) => p,
@@ -1297,8 +1330,9 @@ pub fn run_beh<A: Adapter>(beh: &Beh) -> Obs {
     for (i, op) in beh.ops.iter().enumerate() {
         let mut o = OpObs::default();
         let before = sess.sp_p.fork_log();
-        let mut sp = sess.sp_p.clone();
+        let mut sp = sess.sp_p.fork_log();
         let pr = sess.prove(op, &mut sp, &BTreeMap::new(), None, i);
+        o.sp_shape_p = sponge_shape(&sp.take_log());
         o.open = pr.class().into();
         o.open_detail = pr.detail();
         match pr {
@@ -1414,8 +1448,9 @@ pub fn run_beh<A: Adapter>(beh: &Beh) -> Obs {
                 eprintln!("library   log: {:?}", spl.take_log().iter().map(|e| format!("{}:{}:{}", e.k, e.n, e.d)).collect::<Vec<_>>());
             }
         }
-        let mut sp1 = sp_v.clone();
+        let mut sp1 = sp_v.fork_log();
         let r1 = sess.verify(&st, &mut sp1, 11);
+        obs.ops[i].sp_shape_v = sponge_shape(&sp1.take_log());
         obs.ops[i].check = decision(&r1).into();
         obs.ops[i].check_detail = r1.detail();
         if !matches!(st, Stmt::Open { .. }) {
